@@ -520,16 +520,22 @@ Code path (`src/bin/commands/test.rs`, `src/bin/utils/file_parser.rs`, one docum
      Either error ends the run with exit status 1 (`Result.execError`).  `strip_ansi_escaping` is NOT
      carried into the compiled configuration: an inline `strip_ansi_escaping: true` has no effect.
    * the ONE script (`Divider.compileScript`: per test the expression, an empty line,
-     `echo "<divider>"`, and `1>&2 echo "<divider>"` unless combined) is run by
+     `__SCRUT_EXIT_CODE=$?`, `echo "<divider>"`, `1>&2 echo "<divider>"` unless combined, and
+     `unset __SCRUT_EXIT_CODE`; the divider text ends in `$__SCRUT_EXIT_CODE`) is run by
      `SubprocessRunner::run` with the compiled configuration: `render_output` (`Crlf.renderOutput`)
      is applied to the WHOLE captured stream.
      What the shell writes is derived from the given runs (`scriptStream`): for test `i` the bytes its
-     command wrote, then the divider line with `$?` (`Divider.chunk`) -- unless the command LEAVES
+     command wrote, then the divider line with the command's exit code (`Divider.chunk`; the code
+     is read by the assignment `__SCRUT_EXIT_CODE=$?`, a command of its own behind the expression,
+     and both divider lines expand that variable) -- unless the command LEAVES
      the shell (`exit N`): the stream ends behind its bytes and `N` is the script's exit status
-     (`scriptExit`; otherwise it is that of the last `echo`, 0).  Under `combined` (stderr merged
+     (`scriptExit`; otherwise it is that of the last `unset`, 0).  Under `combined` (stderr merged
      into the stdout pipe) a command's bytes are its stdout bytes followed by its stderr bytes
-     (assumption on the command, as in section 4).  On stderr the divider carries `0`: `$?` of
-     `1>&2 echo` is the status of the `echo` before it (the code ignores the value).
+     (assumption on the command, as in section 4).  On stderr the divider carries the SAME code
+     as on stdout: `1>&2 echo` expands `$__SCRUT_EXIT_CODE` too (the code ignores the value).
+     The runs are those of COMPLETE commands: an expression that bash continues over the footer
+     (one that ends in `|`, `&&`, `\`, an open quote …) has no run of its own and is outside the
+     composition; what the script text guarantees there is `Props/C13.lean` `script_exit_code_taken_by_assignment`.
      The random salt is replaced by the fixed `modelSalt`; outputs that contain
      `~~~~~~~~EXECDIVIDER::<modelSalt>::` are outside the composition (`unsupported`): the assumption
      is that the random salt of a run does not occur in the outputs of that run.  Exit codes outside
@@ -635,14 +641,14 @@ def compileTestcase (tests : List Test) : Option Compiled :=
   | _, _, _, _ => none
 
 /-- what the script writes to one stream: per test case the bytes of its command and the divider
-line (`code` = what `$?` expands to there), up to a command that leaves the shell -/
+line (`code` = what `$__SCRUT_EXIT_CODE` expands to there), up to a command that leaves the shell -/
 def scriptStream (pay : SRan → Bytes) (code : SRan → Nat) : Nat → List SRan → Bytes
   | _, [] => []
   | i, r :: rs =>
     if r.leaves then pay r
     else Divider.chunk modelSalt i (pay r) (code r) ++ scriptStream pay code (i + 1) rs
 
-/-- exit status of the script: that of the command that left the shell, else that of the last `echo` -/
+/-- exit status of the script: that of the command that left the shell, else that of the last `unset` -/
 def scriptExit : List SRan → Int
   | [] => 0
   | r :: rs => if r.leaves then r.ran.code else scriptExit rs
@@ -687,7 +693,7 @@ def execScriptBytes (tests : List Test) (tcs : List Exec.TC) (runs : List SRan) 
     let rawOut :=
       if combined then scriptStream (fun r => r.ran.stdout ++ r.ran.stderr) (fun r => r.ran.code.toNat) 0 runs
       else scriptStream (fun r => r.ran.stdout) (fun r => r.ran.code.toNat) 0 runs
-    let rawErr := if combined then [] else scriptStream (fun r => r.ran.stderr) (fun _ => 0) 0 runs
+    let rawErr := if combined then [] else scriptStream (fun r => r.ran.stderr) (fun r => r.ran.code.toNat) 0 runs
     let script := Exec.Status.code (scriptExit runs)
     -- `SubprocessRunner::run`: `render_output` of the compiled test case (no `strip_ansi_escaping`)
     match Crlf.renderOutput cfg.keepCrlf none (fun b => some b) rawOut,
